@@ -38,15 +38,15 @@ theorem getOffset_putOffset (offs : List (OKey × OVal)) (k k' : OKey) (val : OV
 
 /-! ### the specification: a map from keys to the last successfully committed value -/
 
-abbrev Spec := OKey → Option OVal
+abbrev OffSpec := OKey → Option OVal
 
 /-- apply the entries of one OffsetCommit whose reply code is NONE, in request order -/
-def applyCodes (m : Spec) (g : Nat) : List (Nat × Int × Int × Nat) → List (Nat × Int × Int) → Spec
+def applyCodes (m : OffSpec) (g : Nat) : List (Nat × Int × Int × Nat) → List (Nat × Int × Int) → OffSpec
   | (t, p, off, md) :: ps, (_, _, c) :: cs =>
     applyCodes (if c = NONE then fun k => if (g, t, p) = k then some (off, md) else m k else m) g ps cs
   | _, _ => m
 
-def specStep (m : Spec) : Op × Reply → Spec
+def specStep (m : OffSpec) : Op × Reply → OffSpec
   | (.commit g _ _ parts, .commit codes) => applyCodes m g parts codes
   | _ => m
 
@@ -55,9 +55,9 @@ def trace (s : State) : List Op → List (Op × Reply)
   | [] => []
   | op :: ops => (op, (step s op).2) :: trace (step s op).1 ops
 
-def specOf (tr : List (Op × Reply)) : Spec := tr.foldl specStep (fun _ => none)
+def specOf (tr : List (Op × Reply)) : OffSpec := tr.foldl specStep (fun _ => none)
 
-theorem commitWrites_spec (s : State) (g : Nat) (parts : List (Nat × Int × Int × Nat)) (m : Spec)
+theorem commitWrites_spec (s : State) (g : Nat) (parts : List (Nat × Int × Int × Nat)) (m : OffSpec)
     (h : ∀ k, getOffset s.offsets k = m k) :
     ∀ k, getOffset (commitWrites s g parts).1.offsets k = applyCodes m g parts (commitWrites s g parts).2 k := by
   induction parts generalizing s m with
@@ -75,7 +75,7 @@ theorem commitWrites_spec (s : State) (g : Nat) (parts : List (Nat × Int × Int
       intro k
       simp only [getOffset_putOffset, h]
 
-theorem applyCodes_rejected (m : Spec) (g : Nat) (parts : List (Nat × Int × Int × Nat)) (code : Int) (hc : code ≠ NONE) :
+theorem applyCodes_rejected (m : OffSpec) (g : Nat) (parts : List (Nat × Int × Int × Nat)) (code : Int) (hc : code ≠ NONE) :
     applyCodes m g parts (parts.map fun e => (e.1, e.2.1, code)) = m := by
   induction parts with
   | nil => rfl
@@ -85,7 +85,7 @@ theorem applyCodes_rejected (m : Spec) (g : Nat) (parts : List (Nat × Int × In
     exact ih
 
 /-- one step keeps "the store's offset map is the specification map" -/
-theorem step_spec (s : State) (op : Op) (m : Spec) (h : ∀ k, getOffset s.offsets k = m k) :
+theorem step_spec (s : State) (op : Op) (m : OffSpec) (h : ∀ k, getOffset s.offsets k = m k) :
     ∀ k, getOffset (step s op).1.offsets k = specStep m (op, (step s op).2) k := by
   cases op with
   | commit g mid gen parts =>
@@ -117,7 +117,7 @@ theorem step_spec (s : State) (op : Op) (m : Spec) (h : ∀ k, getOffset s.offse
   | fail k => simpa [step, stepV, specStep] using h
   | setMeta tm => simpa [step, stepV, specStep] using h
 
-theorem run_spec (s : State) (ops : List Op) (m : Spec) (h : ∀ k, getOffset s.offsets k = m k) :
+theorem run_spec (s : State) (ops : List Op) (m : OffSpec) (h : ∀ k, getOffset s.offsets k = m k) :
     ∀ k, getOffset (run s ops).offsets k = (trace s ops).foldl specStep m k := by
   induction ops generalizing s m with
   | nil => simpa [run, trace] using h
@@ -181,7 +181,7 @@ theorem _root_.KafVerif.C16.never_committed_minus_one (ops : List Op) (g : Nat) 
   simpa using this
 
 theorem applyCodes_other (g : Nat) (k : OKey) (parts : List (Nat × Int × Int × Nat)) (hk : ∀ e ∈ parts, (g, e.1, e.2.1) ≠ k) :
-    ∀ (codes : List (Nat × Int × Int)) (m : Spec), applyCodes m g parts codes k = m k := by
+    ∀ (codes : List (Nat × Int × Int)) (m : OffSpec), applyCodes m g parts codes k = m k := by
   induction parts with
   | nil => intro codes m; cases codes <;> rfl
   | cons e t ih =>
